@@ -49,7 +49,7 @@ def product_for_init():
 REPRS = ["ONEONE", "ZERO", "CENTER", "TILDE"]
 
 
-def scenario_1d(tid, kind, grid, atoms, rng, lattice, unit, a_u=0, repr_name="ONEONE", fv=True, sigma_u=0):
+def scenario_1d(tid, kind, grid, atoms, rng, lattice, unit, a_u=0, repr_name="ONEONE", fv=True, sigma_u=0, prior_grid=None):
     from rpylib.distribution.sampling import SamplingMethod
     from rpylib.distribution.samplingfactory import create_q_vector
     from rpylib.model.levymodel.levymodel import LevyRepresentation
@@ -70,6 +70,9 @@ def scenario_1d(tid, kind, grid, atoms, rng, lattice, unit, a_u=0, repr_name="ON
     try:
         model = atomic.AtomLevyModel(atoms, sigma=sigma_u * U, a=a_u * U, representation=LevyRepresentation[repr_name],
                                      finite_variation=fv, unit=unit)
+        if prior_grid is not None:
+            # the same model object already served a chain on another (narrower) grid
+            MarkovChainProcess(model=model, method=SamplingMethod.BINARYSEARCHTREE, grid=prior_grid).initialisation(product_for_init())
         proc = MarkovChainProcess(model=model, method=SamplingMethod.BINARYSEARCHTREE, grid=grid)
         q = create_q_vector(proc.model.levy_triplet.nu, grid)
         lam = proc.intensity_of_jumps
@@ -100,7 +103,7 @@ def scenario_1d(tid, kind, grid, atoms, rng, lattice, unit, a_u=0, repr_name="ON
     return {"tid": tid, "hdr": hdr, "ev": ev}
 
 
-def scenario_nd(tid, kind, grid, atoms, d, reprs, a_us, lattice=True):
+def scenario_nd(tid, kind, grid, atoms, d, reprs, a_us, lattice=True, prior_grid=None):
     from rpylib.distribution.sampling import SamplingMethod
     from rpylib.model.levymodel.levymodel import LevyRepresentation
     from rpylib.process.markovchain.markovchainlevycopula import MarkovChainLevyCopula
@@ -120,6 +123,8 @@ def scenario_nd(tid, kind, grid, atoms, d, reprs, a_us, lattice=True):
     try:
         model = atomic.atom_copula_model(atoms, d, drifts=[x * U for x in a_us],
                                          representations=[LevyRepresentation[r] for r in reprs], unit=(U if lattice else None))
+        if prior_grid is not None:
+            MarkovChainLevyCopula(model, prior_grid, SamplingMethod.BINARYSEARCHTREEADAPTED).initialisation(product_for_init())
         pinv = MarkovChainLevyCopula(model, grid, SamplingMethod.INVERSION)
         lam = pinv.intensity_of_jumps
         rows = []
@@ -199,6 +204,17 @@ def main():
         ci += 1
         traces.append(scenario_1d(tid(), "lattice1d:wide", grid, atoms, rng, True, U, a_u=rng.randint(-40, 40), repr_name=r,
                                   fv=fv, sigma_u=rng.choice([0, 8])))
+    # the same model object used for a chain on a narrow grid first, then for the chain under observation on a wider one
+    for rep in range(3 if quick else 10):
+        step = 16
+        nl, nr = rng.randint(2, 4), rng.randint(2, 4)
+        wide = CTMCGrid(h=step * U, origin_coordinate=nl, axes=[np.array([j * step * U for j in range(-nl, nr + 1)])])
+        narrow = CTMCGrid(h=step * U, origin_coordinate=1, axes=[np.array([j * step * U for j in range(-1, 2)])])
+        atoms = atomic.atoms_everywhere(-nl * step - 8, nr * step + 8, rng, wmax=4)
+        r, fv = combos[ci % len(combos)]
+        ci += 1
+        traces.append(scenario_1d(tid(), "lattice1d:reuse", wide, atoms, rng, True, U, a_u=rng.randint(-20, 20), repr_name=r, fv=fv,
+                                  prior_grid=narrow))
     # irregular lattice-aligned axes (states at multiples of 4 units, irregular gaps)
     for rep in range(4 if quick else 16):
         nl, nr = rng.randint(1, 4), rng.randint(1, 4)
@@ -220,7 +236,13 @@ def main():
 
     def elementary_atoms(grid):
         a = grid.axes[0]
-        pts = sorted(set(list(a) + [grid.middle(x, y) for x, y in zip(a, a[1:])]))
+        # the grid's own cell boundaries AND the arithmetic mid-points (and quarter points): a cell boundary computed by
+        # any other rule than grid.middle() then has an atom on its wrong side
+        pts = set(float(x) for x in a) | set(float(grid.middle(x, y)) for x, y in zip(a, a[1:]))
+        for x, y in zip(a, a[1:]):
+            pts |= {0.5 * (x + y), 0.75 * x + 0.25 * y, 0.25 * x + 0.75 * y}
+        pts = sorted(pts)
+        pts = [pts[0]] + [q for p_, q in zip(pts, pts[1:]) if q - p_ > 1e-9 * max(1.0, abs(q))]
         pos = [0.5 * (x + y) for x, y in zip(pts, pts[1:])]
         pos = [a[0] - 0.01] + pos + [a[-1] + 0.01]
         return [(p, rng.randint(1, 7)) for p in pos]
@@ -256,6 +278,14 @@ def main():
             atoms = atomic.joint_atoms_in_box([lo] * d, [hi] * d, d, rng, 50 if d == 2 else 70, wmax=4)
             reprs = [rng.choice(REPRS) for _ in range(d)]
             traces.append(scenario_nd(tid(), f"copula{d}d:l{lvl}", grid, atoms, d, reprs, [rng.randint(-9, 9) for _ in range(d)]))
+    for rep in range(2 if quick else 6):
+        d, step = 2, 16
+        axis = np.array([j * step * U for j in range(-2, 3)])
+        wide = CTMCGrid(h=step * U, origin_coordinate=2, axes=[axis] * d)
+        narrow = CTMCGrid(h=step * U, origin_coordinate=1, axes=[np.array([j * step * U for j in range(-1, 2)])] * d)
+        atoms = atomic.joint_atoms_in_box([-32] * d, [32] * d, d, rng, 50, wmax=4)
+        traces.append(scenario_nd(tid(), "copula2d:reuse", wide, atoms, d, [rng.choice(REPRS) for _ in range(d)],
+                                  [rng.randint(-9, 9) for _ in range(d)], prior_grid=narrow))
     # ---- copula chains on grids with one distinct axis per dimension (user-built lattice grids, credit grids) --------
     for rep in range(3 if quick else 10):
         d = rng.choice([2, 2, 3])
